@@ -166,7 +166,8 @@ def main(argv=None):
             f.write(bytes(rng.getrandbits(8) for _ in range(ln)))
     largv = [sys.argv[0], f'-runs={args.runs}', f'-seed={max(1, args.seed)}',
              f'-max_len={args.max_len}', '-len_control=0',
-             f'-timeout={args.unit_timeout}', '-verbosity=1', '-print_final_stats=1',
+             f'-timeout={args.unit_timeout}',
+             f'-artifact_prefix={corpus}/', '-verbosity=1', '-print_final_stats=1',
              corpus]
     dump()
     atheris.Setup(largv, one_input)
